@@ -32,7 +32,7 @@ TTable ==
                          IF k = Ev.key THEN [status |-> Ev.status, hash |-> Ev.hash] ELSE table[k]]
     /\ l' = l + 1
 
-PayloadFes == {"lib", "lib-thread", "lib-stream", "server", "cli-stdout", "cli-stdin-stdout"}
+PayloadFes == {"lib", "lib-thread", "lib-stream", "lib-str", "server", "cli-stdout", "cli-stdin-stdout"}
 
 TOp ==
     /\ Is("op")
